@@ -44,8 +44,10 @@ def setup_worker():
 
 @st.composite
 def cases(draw, tier, stratum):
-    feats = S.Features(meta=False, positive=False) if stratum == 'main' else S.Features()
-    h = draw(H.histories(feats, max_steps=2 if tier == 'quick' else 4))
+    feats = S.Features(meta=False, positive=False) if stratum != 'meta' else S.Features()
+    h = draw(H.histories(feats, max_steps=(2 if tier == 'quick' else 4) +
+                         (1 if stratum == 'backfill' else 0),
+                         backfills=(stratum == 'backfill')))
     vers = H.versions(h)
     rows_at = {}
     for i in range(len(vers) - 1):
@@ -62,8 +64,8 @@ def cases(draw, tier, stratum):
 
 
 def jobs(tier, scale=1.0):
-    per = max(1, int((6 if tier == 'quick' else 60) * scale))
-    return [{'kind': 'hyp', 'stratum': 'main' if i % 4 != 3 else 'meta', 'shard': i,
+    per = max(1, int((8 if tier == 'quick' else 60) * scale))
+    return [{'kind': 'hyp', 'stratum': ['main', 'backfill', 'main', 'meta', 'backfill', 'main', 'backfill', 'meta'][i % 8], 'shard': i,
              'examples': per} for i in range(16)]
 
 
